@@ -488,7 +488,7 @@ end Reject
 section Counted
 open Furiko Furiko.Str Furiko.Cron Furiko.Compose Furiko.Props.C15
 
-/-- **scheduled_job_counted.**
+/-- **scheduled_job_counted_partial.**
 
 *Cron reconciler*: `j` is the Job `NewJobFromJobConfig(c, Scheduled, t)` builds (`C02`), for a
 representable Unix time `t` after Go's zero time.
@@ -506,8 +506,13 @@ have been deleted) and foreign writes; then a restart whose loaded `jc` carries 
 Then the Job is listed by `listJobs` for `read` and its annotation reads back as `t` (across the
 two models' independent `Atoi`/`%v` implementations); right after the sync the recorded
 `status.lastScheduled` is `≥ t`; and no tick after the restart ever requests `t` (or anything
-earlier) for `jc` again. -/
-theorem scheduled_job_counted
+earlier) for `jc` again.
+
+PARTIAL: the hypothesis `hseen` (the Job is in the Job cache when a sync of its JobConfig reads the
+current version — envelope `E-JobObservedBeforeGone`) cannot be dropped.  A scheduled Job that is
+created and deleted between two syncs of its JobConfig is never counted, and its schedule time IS
+requested again after a restart: `unobserved_job_rerequested_witness` (known finding F33). -/
+theorem scheduled_job_counted_partial
     (now0 : Int) (c : CronRec.JobConfig) (t : Int) (ht : InInt64 t) (hz : JcStatus.zeroUnix < t)
     (j : CronRec.Job) (hj : CronRec.newJobFromJobConfig now0 c CronRec.typeScheduled t = some j)
     (s : C15.Sys) (hwf : s.WF) (idx : Nat) (cache : List JcStatus.Job) (read : JcStatus.JobConfig)
@@ -548,6 +553,28 @@ def jcB : JC :=
                notBefore := none, notAfter := none, lastUpdated := none, specId := 0 }
     lastScheduled := some 1000 }
 
+/-- server-set fields of the second Job -/
+def metaA2 : JobMeta := { uid := "job-3", created := 1010, phase := "Queued" }
+/-- `C15`'s ground-truth history: `a` observed; `b` created and deleted between two syncs -/
+def histF33 (a b : JcStatus.Job) : List C15.WAct :=
+  [.create a, .deliver, .sync, .sync, .create b, .delete b.name, .deliver, .deliver, .sync, .sync]
+/-- the Job `NewJobFromJobConfig(cA, Scheduled, t)` builds (`C02`) … -/
+def jobF33 (t : Int) : Option CronRec.Job := CronRec.newJobFromJobConfig 0 cA CronRec.typeScheduled t
+/-- … as the JobConfig controller sees it (server-set fields `m`) -/
+def jcJobF33 (t : Int) (m : JobMeta) : JcStatus.Job :=
+  match jobF33 t with
+  | some j => toJcJob j m
+  | none => default
+/-- the state `histF33` ends in, for the Jobs of 1000 and 1010 of `ns/a` -/
+def worldF33 : C15.World :=
+  C15.wRun { api := readA } (histF33 (jcJobF33 1000 metaA) (jcJobF33 1010 metaA2))
+/-- the cron reconciler's side: the Job of 1010 is created, deleted, and — after the restart that
+requests 1010 again — created a second time -/
+def histTwice : List CronRec.Action :=
+  [.request cA 1010, .deliver [cA] [], .process (keyA 1010) 1010 (fun _ => 0) (some 20) .none false,
+   .delete cA.ns "a-1010".toList, .crash,
+   .request cA 1010, .process (keyA 1010) 1026 (fun _ => 0) (some 20) .none false]
+
 /-- the Job of `(cA, 1000)` is cached when the JobConfig controller syncs: listed, read back as
 1000, recorded; the Job is then deleted and a sync with a stale JobConfig version runs (conflict):
 still 1000; a restart at 1025.5 s that reads 1000 requests 1010 and 1020 only. -/
@@ -568,6 +595,34 @@ example : ∃ j, CronRec.newJobFromJobConfig 0 cA CronRec.typeScheduled 1000 = s
   simp only [sysA, List.mem_singleton] at hv
   subst hv
   exact ⟨Nat.le_refl _, fun _ => rfl⟩
+
+/-- **F33 (known finding), composed: a scheduled Job that was never observed is requested again.**
+
+`ns/a` matches every 10 s.  The cron reconciler builds the Jobs of 1000 and 1010
+(`NewJobFromJobConfig`, `C02`).  In the ground-truth history model of `C15` (`World`): the Job of
+1000 is created, delivered and counted; the Job of 1010 is created and deleted (user, or TTL after
+finishing quickly) and both events reach the Job cache while the JobConfig's key waits for a
+worker; the sync lists the Job of 1000 only.  With every event delivered and the queue empty,
+`status.lastScheduled` is 1000 although a Job with schedule time 1010 existed.  A restart at
+1025.5 s loads that value (`jcB`) and its first tick requests 1010 AGAIN (and 1020); the cron
+reconciler finds no Job `a-1010` on the server and creates it a second time (`histTwice`: create,
+delete, crash, request, create) — at most one exists at a time (`C02.at_most_one`), but the Job of
+1010 runs twice.  Replayed on the real controllers by the `system` scenario
+`f33-job-never-observed-rerequested-after-restart`. -/
+theorem unobserved_job_rerequested_witness :
+    ((jobF33 1000).isSome = true ∧ (jobF33 1010).isSome = true ∧
+      (jcJobF33 1010 metaA2).schedAnn = some "1010" ∧ (jcJobF33 1010 metaA2).name = "a-1010" ∧
+      worldF33.quiet = true ∧ jcJobF33 1010 metaA2 ∈ worldF33.ever ∧
+      worldF33.jobs.map (·.name) = ["a-1000"] ∧
+      worldF33.api.status.lastScheduled = jcB.lastScheduled ∧ jcB.lastScheduled = some 1000) ∧
+    schedNew [jcB] 0 300 1025500000000 = some (Heap.new [("ns/a", 1010)]) ∧
+    ((runTicks 5 1000 10 ⟨Heap.new [("ns/a", 1010)], [jcB].map (fun jc => (jc.key, jc)), []⟩
+        [1026000000000]).2 = ([[("ns/a", 1010), ("ns/a", 1020)]], true) ∧
+      ((CronRec.runActs {} (histTwice.take 3)).api.map (·.name)) = ["a-1010".toList] ∧
+      ((CronRec.runActs {} (histTwice.take 4)).api.map (·.name)) = [] ∧
+      ((CronRec.runActs {} histTwice).api.map (fun j => (j.name, j.schedAnnot))) =
+        [("a-1010".toList, some "1010".toList)]) :=
+  ⟨by decide +kernel, rfl, by decide +kernel⟩
 
 end Counted
 
